@@ -49,6 +49,60 @@ def cli_pass(behs_jobs, out, limit):
     return n, bad
 
 
+def multishot_pass(out, tier):
+    """--shots=N with operations that depend on measured bits: the listing printed by --emit-qasm and the .qasm file must be
+    one and the same run's (the last shot's) listing. Draws are injected so that the shots take different branches."""
+    n = bad = 0
+    for k in ((2, 3) if tier == "quick" else (1, 2, 3, 4, 5)):
+        body = ["  qubit[%d] c;" % k, "  qubit t;"]
+        for i in range(k):
+            body += ["  h(c[%d]);" % i, "  bit b%d = measure c[%d];" % (i, i),
+                     "  if (b%d == 1b) { x(t); } else { z(t); rz(t, %d.5f); }" % (i, i)]
+        body += ["  bit r = measure t;"]
+        src = "function main() -> void {\n" + "\n".join(body) + "\n}\n"
+        for shots in (2, 3, 7):
+            per = k + 1
+            draws = []
+            for sidx in range(shots):
+                v = 0.25 if sidx == 0 else (0.75 if sidx == shots - 1 else (0.25 if sidx % 2 else 0.75))
+                draws += [v] * per
+            ref = runner.run_jobs([{"id": 0, "src": src, "draws": draws, "shots": shots, "want": ["qasm"], "gc": "none"}])[0]
+            if ref["status"] != "ok" or len(ref["shots"]) != shots:
+                raise vlib.Infra("multi-shot reference run failed: %s" % str(ref)[:300])
+            first, last = ref["shots"][0]["qasm"], ref["shots"][-1]["qasm"]
+            if first == last:
+                raise vlib.Infra("multi-shot template: first and last shot took the same branches")
+            r = runner.run_cli(["--shots=%d" % shots, "--emit-qasm", "main.bloch"], {"main.bloch": src, "draws.txt": " ".join(repr(d) for d in draws)},
+                               env={"BLOCH_VERIF_DRAWS": "draws.txt", "BLOCH_VERIF_GC": "none"})
+            n += 1
+            filetext = r["files"].get("main.qasm")
+            idx = r["stdout"].find("OPENQASM 2.0;")
+            printed = r["stdout"][idx:] if idx >= 0 else None
+            if printed is not None:
+                end = printed.find("\n\n")
+                # the listing is followed by the tracked-values table in multi-shot mode
+                lines = []
+                for l in printed.split("\n"):
+                    if l.strip() == "" and lines:
+                        break
+                    lines.append(l)
+                printed = "\n".join(lines) + "\n"
+            why = None
+            if r["rc"] != 0:
+                why = "CLI exit status %d: %s" % (r["rc"], r["stderr"][-300:])
+            elif filetext is None or printed is None:
+                why = "listing missing (file %s, stdout %s)" % (filetext is not None, printed is not None)
+            elif printed.strip() != filetext.strip():
+                why = "--shots=%d: --emit-qasm output differs from the .qasm file (they come from different shots)" % shots
+            elif filetext.strip() != last.strip():
+                why = "--shots=%d: the listing is not the last shot's operation sequence" % shots
+            if why:
+                bad += 1
+                out.violation(why, {"what": why, "program": src, "draws": draws, "shots": shots, "stdout": r["stdout"][-1500:], "file": filetext,
+                                    "last_shot_listing": last, "first_shot_listing": first}, "multishot%d" % n)
+    return n, bad
+
+
 def run(tier, seed):
     t0 = time.time()
     out = vlib.Outcome(PID)
@@ -67,11 +121,13 @@ def run(tier, seed):
         src, info = qrender.render(b)
         pairs.append(({"src": src, "draws": qrender.draws_of(b)}, b))
     ncli, badcli = cli_pass(pairs, out, 60 if tier == "quick" else 600)
+    nms, badms = multishot_pass(out, tier)
+    badcli += badms
     cov = {"states": stats["exhaustive"]["distinct"] + meta["distinct"],
            "transitions": stats["exhaustive"]["generated"] + meta["generated"],
            "traces_validated_against_impl": stats["behaviours"],
            "listings_parsed_and_compared": stats["behaviours"], "operations_compared": stats["ops_total"],
-           "cli_runs_file_vs_stdout": ncli, "simulator_edges_with_log_line_checked": rep["edges"],
+           "cli_runs_file_vs_stdout": ncli, "cli_multishot_runs": nms, "simulator_edges_with_log_line_checked": rep["edges"],
            "samples": [sample, {"expected_listing": qrender.expected_qasm(behs[3]) if len(behs) > 3 else ""}],
            "behaviour_stats": stats,
            "rule": "each TLC-generated QRuntime behaviour (gates via functions, static and instance methods, qubit arrays, object "
@@ -85,6 +141,6 @@ def run(tier, seed):
                    "CLI: <file>.qasm must equal the --emit-qasm output."}
     vlib.write_evidence(PID, tier, seed, "model_checking", cov,
                         ["rotation angles are k*pi/2 + 4*pi*m (ring-exact unitaries); arbitrary angles only through the printed-"
-                         "text comparison", "multi-shot runs: the last shot's listing is checked by the C17/C18 checks"],
+                         "text comparison", "multi-shot runs: templates with branch-on-measured-bit, 2/3/7 shots, injected draws"],
                         time.time() - t0, len(viol) + nsim + badcli)
     return out.finish()
